@@ -1,4 +1,5 @@
 import TantivyModel.Driver.Proto
+import TantivyModel.Driver.PureFns
 import TantivyModel.Driver.C01
 import TantivyModel.Driver.C02
 import TantivyModel.Driver.C03
@@ -48,6 +49,7 @@ def dispatch (line : String) : String :=
   | "C18" :: rest => Driver.C18.handle rest
   | "C19" :: rest => Driver.C19.handle rest
   | "C20" :: rest => Driver.C20.handle rest
+  | "PF" :: rest => Driver.PureFns.handle rest
   | ["ping"] => "pong"
   | _ => "bad-op"
 
